@@ -25,7 +25,6 @@ from __future__ import annotations
 import asyncio
 import base64
 import hashlib
-import os
 import random
 import struct
 
@@ -200,13 +199,14 @@ def shards(tier, seed):
             out.append({"kind": "random", "sub": 100 + i, "n": 6000})
         return out
     for i, c in enumerate(cells()):
-        # all 32 cells: every schedule of <= 5 events with gaps {settle, 0, 1}
-        out.append({"kind": "dfs", "sub": i, "cell": list(c), "max_events": 5, "max_states": 150000, "gaps": [GAP_SETTLE, 0, 1], "max_nosettle": 2})
+        # all 32 cells: every schedule of <= 5 events with gaps {settle, 0, 1}, at most 2 non-settled gaps
+        out.append({"kind": "dfs", "sub": i, "cell": list(c), "max_events": 5, "max_states": 120000, "gaps": [GAP_SETTLE, 0, 1], "max_nosettle": 2,
+                    "maxc": {"send": 1, "wait": 2, "tick": 3}})
     for i, c in enumerate(cells()):
-        # and every schedule of <= 4 events with gaps {settle, 0, 1, 2}, up to 3 non-settled gaps
-        out.append({"kind": "dfs", "sub": 40 + i, "cell": list(c), "max_events": 4, "max_states": 150000, "gaps": [GAP_SETTLE, 0, 1, 2], "max_nosettle": 3})
+        # and every schedule of <= 4 events with gaps {settle, 0, 1, 2}, up to 3 non-settled gaps, two senders
+        out.append({"kind": "dfs", "sub": 40 + i, "cell": list(c), "max_events": 4, "max_states": 120000, "gaps": [GAP_SETTLE, 0, 1, 2], "max_nosettle": 3})
     for i in range(32):
-        out.append({"kind": "random", "sub": 100 + i, "n": 40000})
+        out.append({"kind": "random", "sub": 100 + i, "n": 30000})
     return out
 
 
@@ -357,7 +357,6 @@ class WsRun:
         self.grey: dict = {}
         # application actors
         self.recv_live = False
-        self.recv_started = 0
         self.recv_log: list = []  # ("msg", type name, data) | ("exc", type name) | ("cancelled",)
         self.recv_task = None  # client: the receiver task; server: the handler task while inside the receive loop
         self.recv_cancel_injected = False
@@ -368,7 +367,7 @@ class WsRun:
         self.peer_close_end = None
         self.data_after_closed = 0
         self.first_fault = None
-        self.timers_fired = 0
+        self.in_receive = False
         self.setup_error = None
         self._setup()
 
@@ -472,7 +471,6 @@ class WsRun:
             self.tr = self.pipe.a
             self.tr.protocol = Tap(self.tr.protocol, self)
         self.wire_start = len(self.tr.written)  # frames start after the handshake bytes
-        self.peer_wire_start = None
 
     # ---- application actors -------------------------------------------------------------------------
     async def _recv_loop(self):
@@ -585,7 +583,6 @@ class WsRun:
         self.events.append((kind, gap))
         self.counts[kind] = self.n(kind) + 1
         if kind == "recv":
-            self.recv_started += 1
             self.recv_live = True
             if self.side == "server":
                 self.recv_task = self.handler_task
@@ -637,7 +634,6 @@ class WsRun:
         elif kind == "tick":
             w = lp.next_timer()
             if w is not None:
-                self.timers_fired += 1
                 self.facts.add("tick")
                 cands = self._timer_candidates()
                 # virtual time jumps to the next timer; everything that becomes due runs
@@ -797,7 +793,7 @@ class WsRun:
     def _w4(self, terminal, when):
         if not terminal:
             return
-        if self.recv_live and getattr(self, "in_receive", False):
+        if self.recv_live and self.in_receive:
             self.viol("W4:receive-blocked-forever", f"a task is still inside ws.receive() {when}; messages so far {self.recv_log}; closed={self.ws.closed} close_code={self.ws.close_code}")
         for i, c in enumerate(self.closers):
             if c.task is not None and not c.task.done() and c.entered:
@@ -936,10 +932,6 @@ class WsRun:
                 lp.settle(5000)
         finally:
             lp.shutdown()
-
-
-def sched_kinds_have(kinds, what):
-    return any(k in what for k in kinds)
 
 
 # --------------------------------------------------------------------------------------------------
@@ -1134,7 +1126,6 @@ def random_schedules(spec, rec):
         finally:
             run.finish()
         report(rec, cell, schedule, run, "random", rseed=i)
-        rec.sig("abstract-state", [repr(x) for x in run.signature()]) if False else None
         if i % 200 == 0:
             rec.sample({"cell": list(cell), "schedule": fmt(schedule), "recv": run.recv_log, "close": [(c.result, c.exc) for c in run.closers],
                         "close_code": run.ws.close_code, "frames": [OPNAME.get(f[0]) for f in run.aio_frames()]})
